@@ -66,6 +66,17 @@ func parseBattery(s string) Battery {
 			b.Range = n
 		case "prefix":
 			b.Prefix = n
+		case "iterof":
+			// iterof=Range+Prefix: restrict iterchk to these methods
+			b.IterOnly = strings.Split(arg, "+")
+			if b.IterChk == 0 {
+				b.IterChk = 2
+			}
+		case "rangec":
+			if n < 0 {
+				n = 6
+			}
+			b.RangeC = n
 		case "iterchk":
 			if n < 0 {
 				n = 3
